@@ -203,6 +203,11 @@ def run(ctx):
                     continue
                 at = [x for x in (r.num.atoms() | r.den.atoms()) if x != "DISK_SECTOR_SIZE"]
                 if len(at) != 1:
+                    if sector and len(at) > 1:
+                        probs.append(f"value is `{r!r}`: scaled by something read at run "
+                                     f"time; diskstats sectors are always 512-byte units "
+                                     f"(DISK_SECTOR_SIZE), whatever the device's hardware "
+                                     f"sector size")
                     continue
                 want_r = Rat(Poly.atom(at[0]))
                 if sector:
